@@ -275,6 +275,25 @@ class NS:
         return self._d.get(k, default)
 
 
+class LocalsNS(NS):
+    """the locals a specification refers to; a local that is unbound on this path is a failed obligation, not a crash"""
+
+    def __init__(self, ex, st, d):
+        NS.__init__(self, d)
+        self.__dict__['_ex'] = ex
+        self.__dict__['_st'] = st
+
+    def __getattr__(self, k):
+        try:
+            return self._d[k]
+        except KeyError:
+            ex, st = self.__dict__['_ex'], self.__dict__['_st']
+            ex.oblige(st, f'spec:refers-to-a-local-that-is-unbound-here:{k}', z3.BoolVal(False), kind='safety')
+            t = S.fresh('unbound_' + k)
+            self._d[k] = t
+            return t
+
+
 class Ctx:
     """what a specification lambda sees"""
 
@@ -566,7 +585,7 @@ class Exec:
 
     def ctx(self, st, **extra):
         p = NS(self.entry)
-        l = NS({k: v.t for k, v in st.env.items()})
+        l = LocalsNS(self, st, {k: v.t for k, v in st.env.items()})
         d = dict(p=p, l=l, old=self.pre_view if hasattr(self, 'pre_view') else st.view(), pre=getattr(self, 'pre_view', None),
                  new=st.view(), cur=st.view(), g=NS(st.ghost), ex=self, st=st, env=st.env)
         d.update(extra)
